@@ -149,7 +149,7 @@ def main():
         ],
         "checks": checks,
         "not_applicable": na,
-        "notes": "Driver: ./check <id> quick|thorough|--replay <file>; exit 0 held / 1 VIOLATION / 2 infrastructure. Build configurations of helgoboss-midi per check (a check passes only if every configuration passes): main = std + hook (all); nostd = no default features (C01-C11, C15-C17); plain = ordinary release build without debug assertions / overflow checks (C01-C17); serde = std + serde + serde_repr (C04, C07, C09, C19); serdenostd and serdeonly (C19); lowopt / lowopt-realclock = opt-level 0 with mock / real clock (C18). Known findings: /verif/known_findings.txt. Replays: /verif/replays/. VERIF_SEED seeds every random choice.",
+        "notes": "Driver: ./check <id> quick|thorough|--replay <file>; exit 0 held / 1 VIOLATION / 2 infrastructure. Build configurations of helgoboss-midi per check (a check passes only if every configuration passes): main = std + hook (all); nostd = no default features (C01-C11, C15-C17); plain = ordinary release build without debug assertions / overflow checks (C01-C17); plainnostd = plain x no default features (C01, C04-C06); serde = std + serde + serde_repr (C04, C07, C09, C19); serdenostd and serdeonly (C19); lowopt / lowopt-realclock = opt-level 0 with mock / real clock (C18). Known findings: /verif/known_findings.txt. Replays: /verif/replays/. VERIF_SEED seeds every random choice.",
     }
     if not na:
         m["not_applicable"] = []
